@@ -11,6 +11,8 @@ use crate::binder::copy::{ExtSource, FileFormat};
 /// The executor of saving data to file.
 pub struct CopyToFileExecutor {
     pub source: ExtSource,
+    /// The names of the exported columns (the header line of a file written with HEADER).
+    pub column_names: Vec<String>,
 }
 
 impl CopyToFileExecutor {
@@ -21,7 +23,12 @@ impl CopyToFileExecutor {
         // When this stream is dropped, the `sender` is dropped, the `recver` will return
         // `None` in the spawned task, then the task will finish.
         let writer = tokio::task::spawn_blocking(move || {
-            Self::write_file_blocking(self.source.path, self.source.format, recver)
+            Self::write_file_blocking(
+                self.source.path,
+                self.source.format,
+                self.column_names,
+                recver,
+            )
         });
         #[for_await]
         for batch in child {
@@ -39,9 +46,13 @@ impl CopyToFileExecutor {
     fn write_file_blocking(
         path: PathBuf,
         format: FileFormat,
+        column_names: Vec<String>,
         mut recver: mpsc::Receiver<DataChunk>,
     ) -> Result<usize> {
         let file = File::create(path)?;
+        let FileFormat::Csv {
+            header: has_header, ..
+        } = format;
         let mut writer = match format {
             FileFormat::Csv {
                 delimiter,
@@ -58,10 +69,22 @@ impl CopyToFileExecutor {
 
         let mut rows = 0;
 
+        // `COPY .. FROM` with HEADER skips the first line: write one
+        if has_header {
+            writer.write_record(&column_names)?;
+        }
+
         while let Some(chunk) = recver.blocking_recv() {
             for i in 0..chunk.cardinality() {
                 // TODO(wrj): avoid dynamic memory allocation (String)
-                let row = chunk.arrays().iter().map(|a| a.get_to_string(i));
+                // NULL is an empty field, which is what `COPY .. FROM` reads as NULL
+                let row = chunk.arrays().iter().map(|a| {
+                    if a.get(i).is_null() {
+                        String::new()
+                    } else {
+                        a.get_to_string(i)
+                    }
+                });
                 writer.write_record(row)?;
             }
             writer.flush()?;
@@ -93,6 +116,7 @@ mod tests {
                     header: false,
                 },
             },
+            column_names: vec![],
         };
         let child = async_stream::try_stream! {
             yield [
